@@ -322,7 +322,10 @@ func (s *ServerDnsListener) setOptionsRequest(v *commands.SetOptionsRequest, m *
 			logString += ", downenc=%v"
 			logData = append(logData, v.DownstreamEncoder)
 		}
-		if v.DownstreamFragmentSize != nil {
+		if v.DownstreamFragmentSize != nil && (*v.DownstreamFragmentSize == 0 || *v.DownstreamFragmentSize > MaxProbeFragmentSize) {
+			// a zero fragment size would make every later write spin forever
+			resp.Err = commands.BadFrag
+		} else if v.DownstreamFragmentSize != nil {
 			user.Serializer.Downstream.FragmentSize = *v.DownstreamFragmentSize
 			logString += ", downfrag=%v"
 			logData = append(logData, *v.DownstreamFragmentSize)
